@@ -2,6 +2,7 @@ package chk
 
 import (
 	"go/types"
+	"strings"
 
 	"golang.org/x/tools/go/ssa"
 )
@@ -293,8 +294,25 @@ func (e *Effects) applySummary(fn *ssa.Function, s *fnState, sum *Summary, site 
 				ar, ac = s.substF(ri, a, ef.CT, e)
 			}
 			vr, vc := substSet(ef.Val)
-			e.emit(fn, s, ar, ef.Loc, ef.CT, ef.Pos, ef.Fn, v2, vr, ef.ValT.sorted()...)
-			s.storeRegion(ar, ef.Loc, vr, vc)
+			// a write through the pointer parameter itself (*p = …): when the actual is the address of a field
+			// (directly, or taken from a local table of field addresses), the location written is that field
+			locs := [][2]string{{ef.Loc, ef.CT}}
+			if !isW && strings.HasPrefix(ef.Loc, "deref(") && ri.field == "" && !ri.deep && !ri.value {
+				named := true
+				ls := locsOf(a, 0)
+				for _, lc := range ls {
+					if strings.HasPrefix(lc[0], "deref(") {
+						named = false
+					}
+				}
+				if named && len(ls) > 0 {
+					locs = ls
+				}
+			}
+			for _, lc := range locs {
+				e.emit(fn, s, ar, lc[0], lc[1], ef.Pos, ef.Fn, v2, vr, ef.ValT.sorted()...)
+				s.storeRegion(ar, lc[0], vr, vc)
+			}
 			for cc := range ac {
 				s.touch(cc)
 				for r := range vr {
